@@ -25,11 +25,23 @@ def driver(pid, oid, seed, timeout=900):
         return None, 'no replay crate'
     env = dict(os.environ)
     env['CARGO_TARGET_DIR'] = TARGET
+    crate = CRATE
+    if R.REPO != '/repo':
+        # experiments on a scratch copy of the repository (VERIF_REPO): same drivers, path dependency
+        # redirected, separate target dir so /repo's build cache is not invalidated
+        import shutil
+        crate = os.path.join(VERIF, '.cache', 'replay-alt')
+        if os.path.exists(crate):
+            shutil.rmtree(crate)
+        shutil.copytree(CRATE, crate, ignore=shutil.ignore_patterns('target'))
+        ct = open(os.path.join(crate, 'Cargo.toml')).read().replace('path = "/repo"', 'path = "%s"' % R.REPO)
+        open(os.path.join(crate, 'Cargo.toml'), 'w').write(ct)
+        env['CARGO_TARGET_DIR'] = TARGET + '-alt'
     env['CARGO_NET_OFFLINE'] = 'true'
     env.pop('RUSTUP_TOOLCHAIN', None)
     try:
         p = subprocess.run(['cargo', 'run', '--offline', '-q', '--release', '--', pid, oid, str(seed)],
-                           cwd=CRATE, env=env, stdout=subprocess.PIPE, stderr=subprocess.PIPE, timeout=timeout)
+                           cwd=crate, env=env, stdout=subprocess.PIPE, stderr=subprocess.PIPE, timeout=timeout)
     except subprocess.TimeoutExpired:
         return None, 'replay driver timed out'
     out = p.stdout.decode('utf-8', 'replace')
